@@ -80,7 +80,10 @@ def _case(draw):
     return {"lines": draw(st.lists(_line(), max_size=15)), "crlf": draw(st.booleans()),
             "depth": draw(st.integers(0, 3)), "asfile": draw(st.sampled_from([False, False, False, True])),
             "form2": draw(st.sampled_from(["http", "https", "wap", "gemini", "spartan", "gdollar", "gplus"])),
-            "final_newline": draw(st.booleans()), "existing": draw(st.booleans())}
+            "final_newline": draw(st.booleans()), "existing": draw(st.booleans()),
+            # sub-directories whose names other handlers look for (a Maildir has 'new' and 'cur'; a mail spool, a ZIP ...):
+            # a directory with a gophermap is a gophermap directory whatever else it holds
+            "furniture": draw(st.sampled_from([None, None, "maildir-empty", "maildir-files", "cap-names"]))}
 
 
 def strategy(tier):
@@ -150,6 +153,17 @@ def check_case(case, ctx):
         spec.append([pre + "gophermap", "f", text])
         reqsel = dirsel
     spec.append([pre + "other.txt", "f", "not in the map\n"])
+    fur = case.get("furniture")
+    if fur and not case["asfile"]:
+        if fur.startswith("maildir"):
+            for sub in ("new", "cur", "tmp"):
+                spec.append([pre + sub, "d", None])
+            if fur == "maildir-files":
+                spec.append([pre + "new/1", "f", "no header lines here\n"])
+                spec.append([pre + "cur/2:2,S", "f", "From: a@b\nSubject: looks like mail\n\nbody\n"])
+        else:
+            spec.append([pre + ".names", "f", "Name=Not used\nType=1\nPath=/x\nHost=h.example\nPort=70\n"])
+            spec.append([pre + ".cap/other.txt", "f", "Name=Not used either\n"])
     want = _model(case, dirsel)
     if case["existing"]:
         # make some local targets exist (the server then fills in Gopher+ data for them)
